@@ -268,6 +268,12 @@ def _mapper_config(run, P):
                     a_ = init.node.args
                     names = [x.arg for x in a_.args]
                     if name not in names:
+                        # not a parameter here: the constructor may fix the option itself
+                        for x in ast.walk(init.node):
+                            if isinstance(x, ast.Call) and (dotted(x.func) or "").endswith("__init__"):
+                                for kw in x.keywords:
+                                    if kw.arg == name and isinstance(kw.value, ast.Constant):
+                                        return kw.value
                         if a_.kwarg is None:
                             return None
                         continue
